@@ -349,6 +349,42 @@ Proof.
       intros j Hj. destruct (Nat.eq_dec j k) as [->|N]; [|apply Hnz; lia].
       apply (nonzero_ext r); [exact Hr|]. eapply (not_small_nonzero A F fabs feqb_spec abs_0 lt_irrefl); [exact eps_pos|exact E].
 Qed.
+
+(* the residuals / directions generated by the loop (loop_step_seq: its states are Rk, Pk) are mutually orthogonal / conjugate *)
+Theorem cg_seq_orthogonal : forall K, (forall k, (k < K)%nat -> rr n Rk k <> 0 /\ pAp n M Pk k <> 0) ->
+  forall k, (k <= K)%nat -> forall i, (i < k)%nat -> dot n (Rk k) (Rk i) = 0 /\ dotA n M (Pk k) (Pk i) = 0.
+Proof. exact (cg_orthogonal n M Msym Rk Pk alk bek seq_HP0 seq_HR seq_HPn (fun _ => eq_refl) (fun _ => eq_refl)). Qed.
 End Term.
+
+(* symmetric definite matrix, eps > 0, no iteration limit: the routine returns through its stopping rule after at most n iterations
+   (in exact arithmetic), whatever the start vector; the same for every column of the matrix version *)
+Theorem cg_vec_terminates : forall (fabs : A -> A), fabs 0 = 0 -> (forall x, fltb F x x = false) ->
+  (forall n v, nonzero A F n v -> dot n v v <> 0) ->
+  forall fuel n (M : mat) eps (x0 b : vec), (forall i j, (i < n)%nat -> (j < n)%nat -> M i j = M j i) -> definite A F n M ->
+  fltb F 0 eps = true -> (n < fuel)%nat ->
+  let o := cg_vec A F fabs fuel n M eps 0 x0 b in
+  (cg_why A o = StopEps \/ cg_why A o = StopInit) /\ (cg_iters A o <= n)%nat.
+Proof.
+  intros fabs abs_0 lt_irrefl sumsq fuel n M eps x0 b Msym Hdef He Hf. unfold cg_vec. cbv zeta.
+  set (r1 := memo A F n (fun i => b i - cg_mv A F n M x0 i)).
+  assert (G : forall (x r : vec), fltb F (ninf A F fabs n r) eps = false ->
+     let o := cg_loop A F fabs fuel n M eps 0 0 x r r [] in (cg_why A o = StopEps \/ cg_why A o = StopInit) /\ (cg_iters A o <= n)%nat).
+  { intros x r E. destruct (cg_loop_term fabs abs_0 lt_irrefl sumsq n M eps Msym Hdef He r fuel 0 x r r []) as [W I]; try (intros; reflexivity); [|lia|].
+    - intros j Hj. replace j with 0%nat by lia. eapply (not_small_nonzero A F fabs feqb_spec abs_0 lt_irrefl); [exact He|exact E].
+    - split; [left; exact W|exact I]. }
+  destruct (fltb F (ninf A F fabs n b) (ninf A F fabs n r1)).
+  - destruct (fltb F (ninf A F fabs n b) eps) eqn:E; [cbn; split; [right; reflexivity|lia]|]. apply G. exact E.
+  - destruct (fltb F (ninf A F fabs n r1) eps) eqn:E; [cbn; split; [right; reflexivity|lia]|]. apply G. exact E.
+Qed.
+Theorem cg_col_terminates : forall (fabs : A -> A), fabs 0 = 0 -> (forall x, fltb F x x = false) ->
+  (forall n v, nonzero A F n v -> dot n v v <> 0) ->
+  forall fuel n (M : mat) eps (b : vec), (forall i j, (i < n)%nat -> (j < n)%nat -> M i j = M j i) -> definite A F n M ->
+  fltb F 0 eps = true -> (S n < fuel)%nat ->
+  let o := cg_col A F fabs fuel n M eps 0 b in
+  (cg_why A o = StopEps \/ cg_why A o = StopInit) /\ (cg_iters A o <= n)%nat.
+Proof.
+  intros fabs abs_0 lt_irrefl sumsq fuel n M eps b Msym Hdef He Hf. unfold cg_col.
+  apply (cgm_loop_term fabs abs_0 lt_irrefl sumsq n M eps Msym Hdef He b fuel 0); try (intros; reflexivity); [intros; lia|lia].
+Qed.
 
 End CgConj.
